@@ -472,6 +472,6 @@ LEVEL_TEXT = ("Machine-checked Coq theorems for EVERY well-formed tz table and e
               "The hand model (Model/TzConvert.v) is tied to /repo by correspondence at every transition of the destination/source zones through four entry points, both backends.")
 DESIGN_REF = "DESIGN.md section 4 C01, section 3.2"
 LEVEL_NOTE = ("Trusted: Coq kernel+VM; Spec/Zone.v as a model of zoneinfo and of the tzdata tables (validated per probe against zoneinfo); Model/TzConvert.v hand model of the conversion glue "
-              "(correspondence) and Model/FloatRoutes.v (float timestamps over SpecFloat, correspondence incl. arbitrary doubles); wf of real tables evaluated by C02, not proved; "
+              "(correspondence) and Model/FloatRoutes.v (float timestamps over SpecFloat, correspondence incl. arbitrary doubles); wf2 of every shipped table is a kernel-checked fact (Gen/ZoneTables.v regenerated from the staged zoneinfo on every run, Props/C02.v shipped_zones_wellformed; POSIX rules expanded to 2100), and shipped_zone_* restate the conversion theorems for the concrete zones; "
               "the float theorems additionally depend on the standard-library axioms of the classical reals (ClassicalDedekindReals.sig_forall_dec, sig_not_dec, functional_extensionality_dep, Classical_Prop.classic) through Flocq.")
 TECHNIQUE = "Coq proof by induction over transition tables, Flocq real-number semantics of SpecFloat for float timestamps + differential correspondence at every tz transition"
